@@ -240,5 +240,6 @@ func (t *TcpConn) readPump() {
 		if t.testShouldExit() {
 			return
 		}
+		t.verifPoint("reader.loop")
 	}
 }
